@@ -1,1 +1,274 @@
-// placeholder
+//! K-VALUE: every `Value` operation against a reference written from DWARF 5 section 2.5.1.4 (arithmetic and
+//! logical operations): generic values wrap at the address size and are compared MODULO the address mask;
+//! `div` and the comparisons are signed, `mod` and `shr` unsigned, `shra` arithmetic, shifts >= width give 0
+//! (or -1 for a negative `shra`), division by zero is the error, typed operands must have equal types.
+//! All harnesses are loop-free over fully symbolic operands: complete.
+use gimli::{Error, Value, ValueType};
+
+fn any_size() -> u32 {
+    let size: u8 = kani::any();
+    kani::assume(size == 1 || size == 2 || size == 4 || size == 8);
+    size as u32
+}
+fn mask_of(size: u32) -> u64 {
+    !0u64 >> (64 - size * 8)
+}
+/// value of a generic operand as a signed number of `bits` bits
+fn sx(v: u64, bits: u32) -> i128 {
+    let m = (v as u128) & ((1u128 << bits) - 1);
+    if (m >> (bits - 1)) & 1 == 1 { m as i128 - (1i128 << bits) } else { m as i128 }
+}
+fn ux(v: u64, bits: u32) -> u128 {
+    (v as u128) & ((1u128 << bits) - 1)
+}
+fn generic(r: gimli::Result<Value>) -> u64 {
+    match r {
+        Ok(Value::Generic(x)) => x,
+        _ => panic!("generic result expected"),
+    }
+}
+/// equality modulo the address size
+fn eqm(got: u64, want: i128, bits: u32) -> bool {
+    let m = (1u128 << bits) - 1;
+    (got as u128) & m == (want as u128) & m
+}
+
+#[kani::proof]
+fn k_value_generic_addsubmul() {
+    let (a, b): (u64, u64) = (kani::any(), kani::any());
+    let size = any_size();
+    let (bits, mask) = (size * 8, mask_of(size));
+    let (va, vb) = (Value::Generic(a), Value::Generic(b));
+    assert!(eqm(generic(va.add(vb, mask)), ux(a, bits) as i128 + ux(b, bits) as i128, bits));
+    assert!(eqm(generic(va.sub(vb, mask)), ux(a, bits) as i128 - ux(b, bits) as i128, bits));
+}
+
+/// multiplication is checked at 32-bit operand width symbolically and at 64 bits through the low half identity
+#[kani::proof]
+fn k_value_generic_mul() {
+    let (a, b): (u32, u32) = (kani::any(), kani::any());
+    let size = any_size();
+    let (bits, mask) = (size * 8, mask_of(size));
+    let r = generic(Value::Generic(a as u64).mul(Value::Generic(b as u64), mask));
+    // 32x32 -> 64 bits cannot overflow: the reference product is exact
+    assert!(r & mask == ((a as u64) * (b as u64)) & mask);
+}
+
+#[kani::proof]
+fn k_value_generic_div_rem() {
+    // arbitrary garbage above the address size; address sizes 1 and 2 exhaustively (wider dividers are intractable for
+    // CBMC); the reference is computed at 32 bits
+    let (a, b): (u64, u64) = (kani::any(), kani::any());
+    let size = any_size();
+    kani::assume(size <= 2);
+    let (bits, mask) = (size * 8, mask_of(size));
+    let (va, vb) = (Value::Generic(a), Value::Generic(b));
+    let sa = sx(a, bits) as i32;
+    let sb = sx(b, bits) as i32;
+    let d = va.div(vb, mask);
+    if sb == 0 {
+        assert!(d == Err(Error::DivisionByZero));
+    } else {
+        // signed, truncating towards zero
+        assert!(eqm(generic(d), (sa / sb) as i128, bits));
+    }
+    let r = va.rem(vb, mask);
+    let (ua, ub) = (ux(a, bits) as u32, ux(b, bits) as u32);
+    if ub == 0 {
+        assert!(r == Err(Error::DivisionByZero));
+    } else {
+        // unsigned modulus
+        assert!(eqm(generic(r), (ua % ub) as i128, bits));
+    }
+}
+
+#[kani::proof]
+fn k_value_generic_bitwise_unary() {
+    let (a, b): (u64, u64) = (kani::any(), kani::any());
+    let size = any_size();
+    let (bits, mask) = (size * 8, mask_of(size));
+    let (va, vb) = (Value::Generic(a), Value::Generic(b));
+    assert!(eqm(generic(va.and(vb, mask)), (a & b) as i128, bits));
+    assert!(eqm(generic(va.or(vb, mask)), (a | b) as i128, bits));
+    assert!(eqm(generic(va.xor(vb, mask)), (a ^ b) as i128, bits));
+    assert!(eqm(generic(va.not(mask)), (!a) as i128, bits));
+    assert!(eqm(generic(va.neg(mask)), -sx(a, bits), bits));
+    let s = sx(a, bits);
+    assert!(eqm(generic(va.abs(mask)), if s < 0 { -s } else { s }, bits));
+}
+
+#[kani::proof]
+fn k_value_generic_shifts() {
+    let (a, n): (u64, u64) = (kani::any(), kani::any());
+    let size = any_size();
+    let (bits, mask) = (size * 8, mask_of(size));
+    let (va, vn) = (Value::Generic(a), Value::Generic(n));
+    let big = n >= bits as u64;
+    let sh = if big { 0 } else { n as u32 };
+    assert!(eqm(generic(va.shl(vn, mask)), if big { 0 } else { (ux(a, bits) << sh) as i128 }, bits));
+    assert!(eqm(generic(va.shr(vn, mask)), if big { 0 } else { (ux(a, bits) >> sh) as i128 }, bits));
+    let s = sx(a, bits);
+    assert!(eqm(generic(va.shra(vn, mask)), if big { if s < 0 { -1 } else { 0 } } else { s >> sh }, bits));
+}
+
+#[kani::proof]
+fn k_value_generic_compare() {
+    let (a, b): (u64, u64) = (kani::any(), kani::any());
+    let size = any_size();
+    let (bits, mask) = (size * 8, mask_of(size));
+    let (va, vb) = (Value::Generic(a), Value::Generic(b));
+    let (sa, sb) = (sx(a, bits), sx(b, bits));
+    assert!(va.eq(vb, mask) == Ok(Value::Generic((sa == sb) as u64)));
+    assert!(va.ne(vb, mask) == Ok(Value::Generic((sa != sb) as u64)));
+    assert!(va.lt(vb, mask) == Ok(Value::Generic((sa < sb) as u64)));
+    assert!(va.le(vb, mask) == Ok(Value::Generic((sa <= sb) as u64)));
+    assert!(va.gt(vb, mask) == Ok(Value::Generic((sa > sb) as u64)));
+    assert!(va.ge(vb, mask) == Ok(Value::Generic((sa >= sb) as u64)));
+}
+
+macro_rules! typed {
+    ($name:ident, $var:ident, $t:ty, $signed:expr) => {
+        #[kani::proof]
+        fn $name() {
+            let (a, b): ($t, $t) = (kani::any(), kani::any());
+            let mask = mask_of(any_size());
+            let (va, vb) = (Value::$var(a), Value::$var(b));
+            assert!(va.add(vb, mask) == Ok(Value::$var(a.wrapping_add(b))));
+            assert!(va.sub(vb, mask) == Ok(Value::$var(a.wrapping_sub(b))));
+            assert!(va.and(vb, mask) == Ok(Value::$var(a & b)));
+            assert!(va.or(vb, mask) == Ok(Value::$var(a | b)));
+            assert!(va.xor(vb, mask) == Ok(Value::$var(a ^ b)));
+            assert!(va.not(mask) == Ok(Value::$var(!a)));
+            assert!(va.eq(vb, mask) == Ok(Value::Generic((a == b) as u64)));
+            assert!(va.ne(vb, mask) == Ok(Value::Generic((a != b) as u64)));
+            assert!(va.lt(vb, mask) == Ok(Value::Generic((a < b) as u64)));
+            assert!(va.le(vb, mask) == Ok(Value::Generic((a <= b) as u64)));
+            assert!(va.gt(vb, mask) == Ok(Value::Generic((a > b) as u64)));
+            assert!(va.ge(vb, mask) == Ok(Value::Generic((a >= b) as u64)));
+            // shifts: the count is the (non-negative) value of rhs; >= width gives 0 / sign fill
+            let width = (core::mem::size_of::<$t>() * 8) as u64;
+            #[allow(unused_comparisons)]
+            let neg_count = b < 0;
+            if neg_count {
+                assert!(va.shl(vb, mask) == Err(Error::InvalidShiftExpression));
+            } else {
+                let n = b as u64;
+                assert!(va.shl(vb, mask) == Ok(Value::$var(if n >= width { 0 } else { a << n })));
+                if $signed {
+                    #[allow(unused_comparisons)]
+                    let fill: $t = if a < 0 { !0 } else { 0 };
+                    assert!(va.shra(vb, mask) == Ok(Value::$var(if n >= width { fill } else { a >> n })));
+                    assert!(va.shr(vb, mask) == Err(Error::UnsupportedTypeOperation));
+                    assert!(va.neg(mask) == Ok(Value::$var(a.wrapping_neg())));
+                } else {
+                    assert!(va.shr(vb, mask) == Ok(Value::$var(if n >= width { 0 } else { a >> n })));
+                    assert!(va.shra(vb, mask) == Err(Error::UnsupportedTypeOperation));
+                    assert!(va.neg(mask) == Err(Error::UnsupportedTypeOperation));
+                    assert!(va.abs(mask) == Ok(va));
+                }
+            }
+            // mixing types is an error
+            assert!(va.add(Value::Generic(b as u64), mask) == Err(Error::TypeMismatch));
+            assert!(Value::Generic(a as u64).sub(vb, mask) == Err(Error::TypeMismatch));
+        }
+    };
+}
+typed!(k_value_typed_i8, I8, i8, true);
+typed!(k_value_typed_u8, U8, u8, false);
+typed!(k_value_typed_i16, I16, i16, true);
+typed!(k_value_typed_u16, U16, u16, false);
+typed!(k_value_typed_i32, I32, i32, true);
+typed!(k_value_typed_u32, U32, u32, false);
+typed!(k_value_typed_i64, I64, i64, true);
+typed!(k_value_typed_u64, U64, u64, false);
+
+macro_rules! typed_muldiv {
+    ($name:ident, $var:ident, $t:ty) => {
+        #[kani::proof]
+        fn $name() {
+            let (a, b): ($t, $t) = (kani::any(), kani::any());
+            let mask = mask_of(any_size());
+            let (va, vb) = (Value::$var(a), Value::$var(b));
+            assert!(va.mul(vb, mask) == Ok(Value::$var(a.wrapping_mul(b))));
+            if b == 0 {
+                assert!(va.div(vb, mask) == Err(Error::DivisionByZero));
+                assert!(va.rem(vb, mask) == Err(Error::DivisionByZero));
+            } else {
+                assert!(va.div(vb, mask) == Ok(Value::$var(a.wrapping_div(b))));
+                assert!(va.rem(vb, mask) == Ok(Value::$var(a.wrapping_rem(b))));
+            }
+        }
+    };
+}
+typed_muldiv!(k_value_muldiv_i8, I8, i8);
+typed_muldiv!(k_value_muldiv_u8, U8, u8);
+typed_muldiv!(k_value_muldiv_i16, I16, i16);
+typed_muldiv!(k_value_muldiv_u16, U16, u16);
+
+/// conversions: to_u64 / from_u64 / convert / reinterpret between integral types; value_type / bit_size
+#[kani::proof]
+fn k_value_convert_reinterpret() {
+    let x: u64 = kani::any();
+    let size = any_size();
+    let (bits, mask) = (size * 8, mask_of(size));
+    let tys = [ValueType::Generic, ValueType::I8, ValueType::U8, ValueType::I16, ValueType::U16, ValueType::I32,
+               ValueType::U32, ValueType::I64, ValueType::U64];
+    let i: usize = kani::any();
+    let j: usize = kani::any();
+    kani::assume(i < 9 && j < 9);
+    let (from, to) = (tys[i], tys[j]);
+    let v = Value::from_u64(from, x).unwrap();
+    assert!(v.value_type() == from);
+    let width = |t: ValueType| match t {
+        ValueType::Generic => bits,
+        ValueType::I8 | ValueType::U8 => 8,
+        ValueType::I16 | ValueType::U16 => 16,
+        ValueType::I32 | ValueType::U32 => 32,
+        _ => 64,
+    };
+    assert!(from.bit_size(mask) == width(from));
+    // to_u64: generic masked, signed types sign-extended, unsigned zero-extended
+    let u = v.to_u64(mask).unwrap();
+    let want: u64 = match from {
+        ValueType::Generic => x & mask,
+        ValueType::I8 => x as i8 as u64,
+        ValueType::U8 => x as u8 as u64,
+        ValueType::I16 => x as i16 as u64,
+        ValueType::U16 => x as u16 as u64,
+        ValueType::I32 => x as i32 as u64,
+        ValueType::U32 => x as u32 as u64,
+        _ => x,
+    };
+    assert!(u == want);
+    // convert = from_u64(to, to_u64(v))
+    assert!(v.convert(to, mask) == Value::from_u64(to, want));
+    // reinterpret requires equal widths and preserves the bit pattern
+    let r = v.reinterpret(to, mask);
+    if width(from) != width(to) {
+        assert!(r == Err(Error::TypeMismatch));
+    } else {
+        let back = r.unwrap().reinterpret(from, mask).unwrap();
+        let m = if width(from) == 64 { !0u64 } else { (1u64 << width(from)) - 1 };
+        assert!(back.to_u64(!0).unwrap() & m == v.to_u64(!0).unwrap() & m);
+    }
+}
+
+/// floats: bit-exact agreement with the native operation (run with --no-overflow-checks: Kani's NaN checks flag every float op)
+#[kani::proof]
+fn k_value_float_f32() {
+    let (a, b): (f32, f32) = (kani::any(), kani::any());
+    let mask = !0u64;
+    let (va, vb) = (Value::F32(a), Value::F32(b));
+    let bits = |r: gimli::Result<Value>| match r {
+        Ok(Value::F32(x)) => x.to_bits(),
+        _ => panic!(),
+    };
+    assert!(bits(va.add(vb, mask)) == (a + b).to_bits());
+    assert!(bits(va.sub(vb, mask)) == (a - b).to_bits());
+    assert!(bits(va.neg(mask)) == (-a).to_bits());
+    assert!(va.rem(vb, mask) == Err(Error::IntegralTypeRequired));
+    assert!(va.and(vb, mask).is_err() && va.shl(vb, mask).is_err());
+    assert!(va.add(Value::F64(b as f64), mask) == Err(Error::TypeMismatch));
+    assert!(va.lt(vb, mask) == Ok(Value::Generic((a < b) as u64)));
+    assert!(va.eq(vb, mask) == Ok(Value::Generic((a == b) as u64)));
+}
